@@ -28,3 +28,15 @@ func debugDump(repo string, names []string) int {
 	}
 	return 0
 }
+
+func debugFsx(repo string) int {
+	w, err := LoadRepo(repo, BuildConfig{GOOS: "linux", GOARCH: "amd64"})
+	if err != nil {
+		fmt.Println("ERROR", err)
+		return 2
+	}
+	for _, e := range fsEffects(w) {
+		fmt.Printf("%-22s %-45s %-10s excl=%-5v %v\n", w.Pos(e.Site.Instr.Pos()), e.key(w), e.Kind, e.Excl, e.Roots)
+	}
+	return 0
+}
